@@ -76,6 +76,31 @@ def run(ctx):
                     if 'self-include-recursion' in known: ctx.known_finding('id=self-include-recursion ' + txt)
                     else: ctx.violation('self-include', 'real binary: build.ninja = %r\n' % text, txt)
         finally: shutil.rmtree(d, ignore_errors=True)
+        # reference cycles among RULE bindings (command/description/depfile/rspfile/... referring to each other, directly or through 2-3
+        # hops, each reference optionally preceded by other variables in the same value): ninja must report "cycle in rule variables"
+        # (or build), never recurse without bound.  Sanitizer build of the real binary, `-n` and `-t commands` (both evaluate the bindings).
+        aninja = os.path.join(vlib.build_impl('asan'), 'ninja')
+        d = tempfile.mkdtemp(prefix='verif-c13-', dir='/dev/shm')
+        try:
+            names = ['command', 'description', 'depfile', 'rspfile', 'rspfile_content', 'msvc_deps_prefix']
+            pres = ['', '$pre ', '$in ', '${out}.', '$pre$pre', 'x ', '$undefined_thing ']
+            for i in range(40 if q else 400):
+                k = rnd.choice([1, 2, 2, 3]); cyc = rnd.sample(names, k)
+                vals = {n: 'plain_%s' % n for n in names}
+                for a, b in zip(cyc, cyc[1:] + cyc[:1]):
+                    vals[a] = rnd.choice(pres) + '$' + b + rnd.choice(['', ' tail', ' $pre'])
+                if 'command' not in cyc and rnd.random() < 0.7: vals['command'] = rnd.choice(pres) + 'echo $' + cyc[0]
+                text = 'pre = P\nrule r\n' + ''.join('  %s = %s\n' % (n, vals[n]) for n in rnd.sample(names, len(names))) + 'build out: r in\n'
+                open(d + '/build.ninja', 'w').write(text); open(d + '/in', 'w').write('x')
+                for args in (['-n'], ['-t', 'commands']):
+                    try: p = subprocess.run([aninja, '-C', d] + args, stdout=subprocess.PIPE, stderr=subprocess.STDOUT, timeout=120, env=dict(os.environ, ASAN_OPTIONS='detect_leaks=0:exitcode=99'))
+                    except subprocess.TimeoutExpired:
+                        ctx.violation('hang-rule-variable-cycle', 'real binary (ASan) %s: build.ninja =\n%s' % (' '.join(args), text), 'ninja %s does not finish on a manifest whose rule bindings refer to each other' % ' '.join(args)); continue
+                    stats['rule-variable-cycles'] = stats.get('rule-variable-cycles', 0) + 1
+                    if p.returncode not in (0, 1):
+                        ctx.violation('crash-rule-variable-cycle', 'real binary (ASan) %s: build.ninja =\n%s' % (' '.join(args), text),
+                                      'ninja %s dies with status %d on a manifest whose rule bindings refer to each other (unbounded recursion): %s' % (' '.join(args), p.returncode, p.stdout.decode(errors='replace')[-200:].replace('\n', ' ')))
+        finally: shutil.rmtree(d, ignore_errors=True)
     if 'run_dyndep.cc' in comps:
         dd = [b'ninja_dyndep_version', b' = ', b'1', b'\n', b'build ', b'out', b' | ', b': ', b'dyndep', b'  restat = 1', b'$', b'#c', b'\r\n', b'||', b'in']
         # <manifest-hex> <ddname-hex> <content-hex> is the line format of that component: let its own module define it
